@@ -6,7 +6,8 @@
                       the md-grid [g] (any mix of create / remove / set / get / dofs_of /
                       identify_dof / projection_to / num_dofs calls, failing calls included)
      wf_op g o        a create_variables call only lists grids of the md-grid
-     wf2_op g o       wf_op, and no grid is listed twice in one create_variables call
+                      (a grid listed twice in one call is rejected by the code itself since
+                      the fix recorded in known_findings/C05.json, so no further guard is needed)
      block_ids s      the ids in the iteration order of _variable_numbers (= block order)
      block_of s id    dofs_of([variable id])
      lexlt g a b      a's grid comes before b's in (subdomains, then interfaces) order, or the
@@ -15,7 +16,7 @@
      need s r         number of dofs of the registered variables selected by [r] *)
 From Coq Require Import List ZArith Arith Lia Sorted Permutation.
 Import ListNotations.
-From PP Require Import Model.C05 Proofs.C05.
+From PP Require Import Model.C05 Proofs.C05 Proofs.C05b Model.C05x Proofs.C05x.
 
 (* After ANY history: the k-th entry of _variable_numbers has block number k; the blocks
    belong to exactly the registered variables (each once); they are ordered by subdomain
@@ -81,36 +82,122 @@ Print Assumptions C05_projection_null.
    allowed) succeeds, leaves the layout untouched, and reading the same selection from
    every written storage location returns exactly the written vector. *)
 Theorem C05_set_get :
-  forall g ops r xs w, Forall (wf2_op g) ops ->
+  forall g ops r xs w, Forall (wf_op g) ops ->
   let s := final g ops in
   length xs = need s r ->
   exists s', step g s (OpSet r xs w false) = (s', ODone) /\
     vars s' = vars s /\ numbers s' = numbers s /\ sizes s' = sizes s /\
     forall l, In l (wlocs w) -> snd (step g s' (OpGet r l)) = OVals xs.
-Proof. exact thm_set_get. Qed.
+Proof. exact thm_set_get_wf. Qed.
 Print Assumptions C05_set_get.
 
 (* additive variant: after an overwrite with ys, an additive write of xs (both of the right
    length, any selection) succeeds and reading returns the elementwise sum ys + xs
    (vadd a b = map (+) (combine a b)) *)
 Theorem C05_set_additive :
-  forall g ops r xs ys w, Forall (wf2_op g) ops ->
+  forall g ops r xs ys w, Forall (wf_op g) ops ->
   let s := final g ops in
   length ys = need s r -> length xs = need s r ->
   exists s1 s2,
     step g s (OpSet r ys w false) = (s1, ODone) /\
     step g s1 (OpSet r xs w true) = (s2, ODone) /\
     forall l, In l (wlocs w) -> snd (step g s2 (OpGet r l)) = OVals (vadd ys xs).
-Proof. exact thm_set_add. Qed.
+Proof. exact thm_set_add_wf. Qed.
 Print Assumptions C05_set_additive.
 
 (* a vector of the wrong length ends in the size assertion *)
 Theorem C05_set_wrong_size :
-  forall g ops r xs w, Forall (wf2_op g) ops ->
+  forall g ops r xs w, Forall (wf_op g) ops ->
   let s := final g ops in
   length xs <> need s r -> snd (step g s (OpSet r xs w false)) = OErr AssertErr.
-Proof. exact thm_set_wrong_size. Qed.
+Proof. exact thm_set_wrong_size_wf. Qed.
 Print Assumptions C05_set_wrong_size.
+
+(* an index has exactly one owner: two registered variables whose blocks share an index
+   are the same variable *)
+Theorem C05_owner_unique :
+  forall g ops i v v', Forall (wf_op g) ops ->
+  let s := final g ops in
+  In v (vars s) -> In v' (vars s) ->
+  In i (block_of s (vid v)) -> In i (block_of s (vid v')) -> v = v'.
+Proof. exact thm_owner_unique. Qed.
+Print Assumptions C05_owner_unique.
+
+(* for pairwise distinct registered variables the projection's columns are strictly
+   increasing (no repeated row) and are the blocks of the selected variables in global
+   (block) order, i.e. exactly the positions set/get_variable_values dissect; their number
+   is the vector length these functions expect *)
+Theorem C05_projection_distinct :
+  forall g ops r, Forall (wf_op g) ops ->
+  let s := final g ops in
+  truthy r = true -> NoDup (parse s r) ->
+  (forall id, In id (parse s r) -> In id (block_ids s)) ->
+  projection_to s r =
+    OProjM (concat (map (block_of s) (selected_ids s r))) (num_dofs s) /\
+  StronglySorted lt (concat (map (block_of s) (selected_ids s r))) /\
+  length (concat (map (block_of s) (selected_ids s r))) = need s r.
+Proof. exact thm_projection_distinct. Qed.
+Print Assumptions C05_projection_distinct.
+
+(* additive write onto ARBITRARY stored values: if every selected registered variable holds,
+   at every written location, an array of its own size (however it got there), an additive
+   write of the right length succeeds, keeps the layout, and reading returns old + xs *)
+Theorem C05_set_additive_any :
+  forall g ops r xs w, Forall (wf_op g) ops ->
+  let s := final g ops in
+  length xs = need s r -> values_present g s r w ->
+  exists s', step g s (OpSet r xs w true) = (s', ODone) /\
+    vars s' = vars s /\ numbers s' = numbers s /\ sizes s' = sizes s /\
+    forall l, In l (wlocs w) -> exists old,
+      snd (step g s (OpGet r l)) = OVals old /\ length old = need s r /\
+      snd (step g s' (OpGet r l)) = OVals (vadd old xs).
+Proof. exact thm_set_additive_any. Qed.
+Print Assumptions C05_set_additive_any.
+
+(* ---- extended model (PP.Model.C05x): md_variable / get_variables as reference producers,
+   update_variable_num_dofs after the grids changed size.
+     layout_ok g s     the conjunction of C05_partition for the state s and grid sizes g
+     same_shape g g'   the md-grid keeps its subdomains and interfaces, only sizes change
+     synced g ops      x-history from grid sizes g in which every change of the grid sizes
+                       (XRegrid) is directly followed by update_variable_num_dofs (XUpdate)
+                       and variables are only created on grids of the md-grid *)
+
+(* after any history: if the grids change size (same grids), update_variable_num_dofs
+   succeeds, keeps variables, numbering and stored values, and the whole layout statement
+   holds again w.r.t. the NEW sizes *)
+Theorem C05_update_num_dofs :
+  forall g g' ops, Forall (wf_op g) ops -> same_shape g g' ->
+  let s := final g ops in
+  exists s', update_num_dofs g' s = (s', ODone) /\
+             vars s' = vars s /\ numbers s' = numbers s /\ store s' = store s /\
+             layout_ok g' s'.
+Proof. exact thm_update. Qed.
+Print Assumptions C05_update_num_dofs.
+
+(* any x-history (references produced by md_variable / get_variables, listing, repeated
+   re-sizing of the grids each followed by an update): layout statement w.r.t. the current
+   grid sizes, and identify_dof finds the owner of every index *)
+Theorem C05_xhistory :
+  forall g ops, synced g ops ->
+  let x := fst (xrun (xinit g) ops) in
+  layout_ok (xg x) (C05x.xs x) /\
+  (forall i, i < num_dofs (C05x.xs x) ->
+     exists v, In v (vars (C05x.xs x)) /\
+               identify_dof (C05x.xs x) (Z.of_nat i) = OVarId (vid v) /\
+               In i (block_of (C05x.xs x) (vid v))).
+Proof. exact thm_xlayout. Qed.
+Print Assumptions C05_xhistory.
+
+(* write/read round trip for ANY list of variable ids, whatever produced it *)
+Theorem C05_set_get_ids :
+  forall g ops ids xs w, synced g ops ->
+  let s := C05x.xs (fst (xrun (xinit g) ops)) in
+  length xs = need_ids s ids ->
+  exists s', set_values_ids s ids xs w false = (s', ODone) /\
+    vars s' = vars s /\ numbers s' = numbers s /\ sizes s' = sizes s /\
+    forall l, In l (wlocs w) -> get_values_ids s' ids l = OVals xs.
+Proof. exact thm_set_get_ids. Qed.
+Print Assumptions C05_set_get_ids.
 
 (* Non-vacuity: a fracture grid (2 subdomains, 1 interface); interleaved creations on
    subdomains and the interface, a removal, a re-creation and a write. *)
@@ -130,11 +217,47 @@ Example C05_nonvacuous :
   identify_dof s 0 = OVarId 4 /\ identify_dof s 16 = OVarId 0 /\
   projection_to s (Some [ById 2; ById 0]) = OProjM [16; 17; 18; 19; 20; 21] 22 /\
   need s (Some [ByName 0]) = 18 /\
-  snd (step ex_g s (OpGet (Some [ById 2]) LTs)) = OVals [5; 6; 7; 8]%Z.
+  snd (step ex_g s (OpGet (Some [ById 2]) LTs)) = OVals [5; 6; 7; 8]%Z /\
+  values_present ex_g s (Some [ByName 1]) WBoth /\
+  NoDup (parse s (Some [ById 2; ById 0])) /\
+  snd (step ex_g s (OpCreate 3 None false (Some [1; 0; 1]) None)) = OErr ValueErr.
 Proof.
   split; [|split].
   - unfold ex_ops, wf2_op, wf_op, grids_ok, nodup_opt.
     repeat constructor; cbn; try lia; intuition (try discriminate; try lia).
   - unfold ex_ops, wf_op, grids_ok. repeat constructor; cbn; lia.
+  - vm_compute. repeat split; try reflexivity.
+    + intros v l [E|[E|[E|[E|[]]]]] Hm [El|[El|[]]]; subst; try discriminate;
+        eexists; split; reflexivity.
+    + repeat constructor; cbn; intuition discriminate.
+Qed.
+
+(* Non-vacuity of the x-history statements: variables, a re-sizing of the grids followed by
+   the update, references through md_variable and get_variables. *)
+Definition ex_g' : mdgrid := {| sds := [(5, 14, 12); (0, 3, 3)]; intfs := [6] |}.
+Definition ex_xops : list xop :=
+  [ XBase (OpCreate 0 (Some (1, 0, 0)) false (Some [1; 0]) None);
+    XBase (OpCreate 1 None false None (Some [0]));
+    XRegrid ex_g'; XUpdate;
+    XBase (OpCreate 0 None false None (Some [0]));
+    XSet (Some [XGetVars None (Some [Intf 0])]) [1; 2; 3; 4; 5; 6; 7; 8; 9; 10; 11; 12]%Z
+         WIter false ].
+
+Example C05_x_nonvacuous :
+  synced ex_g ex_xops /\ same_shape ex_g ex_g' /\
+  let x := fst (xrun (xinit ex_g) ex_xops) in
+  xg x = ex_g' /\ sizes (C05x.xs x) = [5; 0; 6; 6] /\ block_ids (C05x.xs x) = [1; 0; 2; 3] /\
+  snd (xstep x (XGet (Some [XMdName 1 None]) LIter)) = OVals [1; 2; 3; 4; 5; 6]%Z /\
+  snd (xstep x (XDofs (Some [XMdName 0 None]))) = OErr ValueErr /\
+  snd (xstep x (XDofs (Some [XMdName 3 None]))) = OErr IndexErr /\
+  need_ids (C05x.xs x) [3; 2; 7] = 12.
+Proof.
+  split; [|split; [split; reflexivity|]].
+  - unfold ex_xops.
+    apply synced_op; [cbn; unfold grids_ok; repeat constructor; cbn; lia|].
+    apply synced_op; [cbn; unfold grids_ok; repeat constructor; cbn; lia|].
+    apply synced_regrid; [split; reflexivity|].
+    apply synced_op; [cbn; unfold grids_ok; repeat constructor; cbn; lia|].
+    apply synced_op; [exact I|]. apply synced_nil.
   - vm_compute. repeat split; reflexivity.
 Qed.
